@@ -3,7 +3,7 @@
    MaxServers), the remaining lines are the sequencer's events in order (Up / Send / Stop reported
    by the wrapped peers) followed by Finish (the outcome map of the run).  Acquire / StartFailed /
    Abandon / Release are silent.  The run is accepted iff the whole file can be consumed. *)
-EXTENDS Runner, Json, IOUtils, SequencesExt, Functions
+EXTENDS RunnerCL, Json, IOUtils, SequencesExt, Functions
 
 Raw == ndJsonDeserialize(IOEnv.VERIF_TRACE)
 TracePlan == [b \in 1..Len(Raw[1].plan) |-> [inst |-> Raw[1].plan[b].inst, cases |-> Range(Raw[1].plan[b].cases)]]
@@ -12,24 +12,33 @@ Clean     == Raw[1].clean      \* no fault injected: nothing may be a setup fail
 
 \* crt[b]: (digest of) the certificate the server of batch b reported when it came up - part of "that server's
 \* actual host, port and certificate": a request sent for batch b must carry exactly it
+\* Client loss (RunnerCL): ClientDies and Skip are silent, possible only in runs with an injected client fault; a dead
+\* client receives nothing and no batch is started for it.
 VARIABLES l, pid, crt
 Ev == Raw[l]
-TInit == Init /\ l = 2 /\ pid = [b \in Batches |-> 0] /\ crt = [b \in Batches |-> ""]
+CliFault == Raw[1].cliFault     \* a client fault was injected
+TInit == InitCL /\ l = 2 /\ pid = [b \in Batches |-> 0] /\ crt = [b \in Batches |-> ""]
+Keep == UNCHANGED <<clientDead, skipped>>
 TNext ==
-  \/ Internal /\ UNCHANGED <<l, pid, crt>>
-  \/ /\ l <= Len(Raw) /\ l' = l + 1
+  \/ /\ \E b \in Batches : (~clientDead /\ Acquire(b)) \/ StartFailed(b) \/ Abandon(b) \/ Release(b)
+     /\ Keep /\ UNCHANGED <<l, pid, crt>>
+  \/ CliFault /\ (ClientDies \/ \E b \in Batches : Skip(b)) /\ UNCHANGED <<l, pid, crt>>
+  \/ /\ l <= Len(Raw) /\ l' = l + 1 /\ Keep
      /\ \/ Ev.e = "Started" /\ UNCHANGED crt
              /\ \E b \in Batches : Plan[b].inst = Ev.inst /\ Started(b) /\ pid' = [pid EXCEPT ![b] = Ev.pid]
         \/ Ev.e = "Gone" /\ \E b \in Batches : pid[b] = Ev.pid /\ Gone(b) /\ UNCHANGED <<pid, crt>>
         \/ Ev.e = "Up"   /\ UNCHANGED pid
              /\ \E b \in Batches : pid[b] = Ev.pid /\ Plan[b].inst = Ev.inst /\ Up(b, Ev.addr) /\ crt' = [crt EXCEPT ![b] = Ev.cert]
-        \/ Ev.e = "Send" /\ Ev.probe /\ Ev.hdr /\ UNCHANGED <<pid, crt>>
+        \/ Ev.e = "Send" /\ Ev.probe /\ Ev.hdr /\ ~clientDead /\ UNCHANGED <<pid, crt>>
              /\ \E b \in Batches : Send(b, Ev.name, Ev.addr, Ev.inst) /\ Ev.cert = crt[b]
         \/ Ev.e = "Stop" /\ UNCHANGED <<pid, crt>>
              /\ \E b \in Batches : pid[b] = Ev.pid /\ (IF srv[b] = "up" THEN Stop(b) ELSE (srv[b] = "stopped" /\ UNCHANGED vars))
         \/ Ev.e = "Finish" /\ Finish /\ UNCHANGED <<pid, crt>>
-             /\ Range(Ev.outcomes) = AllCases                  \* exactly the selected permutations have an outcome
-             /\ Range(Ev.setup) = setupFailed                  \* and exactly the never-sent ones are setup failures
+             /\ Range(Ev.outcomes) = AllCases \ SkippedCases     \* exactly the permutations of the started batches have an outcome
+             \* and exactly the never-sent ones are setup failures (with a failed client, requests it received but never
+             \* answered are setup failures as well)
+             /\ setupFailed \subseteq Range(Ev.setup)
+             /\ Range(Ev.setup) \subseteq (IF clientDead THEN setupFailed \cup sent ELSE setupFailed)
              /\ (Clean => setupFailed = {})
 Accepted == (l = Len(Raw) + 1) => PrintT("ACCEPT")
 HighWater == PrintT("AT " \o ToString(l))
